@@ -191,3 +191,89 @@ Proof.
   split; [vm_compute; reflexivity|]. split; [vm_compute; reflexivity|].
   repeat constructor; vm_compute; discriminate.
 Qed.
+
+(* ================================================================================================
+   State-dependent event tables (SIR_VariableInfection): Model/KernelDyn.v is the two scheduler
+   loops with a per-element event list computed from the current state; with no dynamic entries
+   they ARE the loops of Model/Kernel.v (the two C05_dyn_conservative theorems), so everything above carries over,
+   and the membership clauses hold for every dynamic table.  Since the repair F15 (0d0f7b6) the
+   Gillespie loop re-tests a one-element locus after the posted events of the interval ran, so the
+   stochastic clause needs no proviso. *)
+From EpyV Require Import Model.Loci Model.Compart Model.KernelDyn Model.CompartVI Proofs.KernelDyn Proofs.KernelDynLoops Proofs.KernelDynRun Proofs.KernelDynStatic Proofs.CompartVI Proofs.CompartVIMain.
+
+Theorem C05_dyn_member_stoch : forall W (D : dtable W) pf fuel rs ls ds k t c e m,
+  In (OHandler k t c e (Some m)) (r_out (dstoch_run D pf fuel rs ls ds)) -> m = true.
+Proof. exact CVI_member_stoch. Qed.
+Theorem C05_dyn_member_sync : forall W (D : dtable W) pf fuel rs ds k t c e m,
+  In (OHandler k t c e (Some m)) (r_out (dsync_run D pf fuel rs ds)) -> m = true.
+Proof. exact CVI_member_sync. Qed.
+Theorem C05_dyn_stoch_stale_skip : forall W (D : dtable W) pi d nt ev (s5 : st W),
+  de_member d (loci s5) (world s5) = false -> dstoch_fire D (TDyn pi d) nt ev s5 = (ev, s5).
+Proof. exact CVI_stoch_stale_skip. Qed.
+Theorem C05_dyn_stoch_live_fire : forall W (D : dtable W) pi d nt ev (s5 : st W),
+  de_member d (loci s5) (world s5) = true -> dstoch_fire D (TDyn pi d) nt ev s5 = (S ev, fire_dyn D pi d nt s5).
+Proof. exact CVI_stoch_live_fire. Qed.
+Theorem C05_dyn_sync_skip : forall W (D : dtable W) t pi d e evs nev (s : st W),
+  de_member d (loci s) (world s) = false ->
+  dfire_tranche D t ((TDyn pi d, e) :: evs) nev s = dfire_tranche D t evs nev s.
+Proof. exact CVI_sync_skip. Qed.
+Theorem C05_dyn_sync_fire : forall W (D : dtable W) t pi d e evs nev (s : st W),
+  de_member d (loci s) (world s) = true ->
+  dfire_tranche D t ((TDyn pi d, e) :: evs) nev s = dfire_tranche D t evs (S nev) (fire_dyn D pi d t s).
+Proof. exact CVI_sync_fire. Qed.
+Theorem C05_dyn_zero_never_sync : forall W (D : dtable W) pf fuel rs ds t pi j e,
+  In (OTap t pi (NEv pi j) e) (r_out (dsync_run D pf fuel rs ds)) -> fired_dyn_ok D pi j e.
+Proof. exact CVI_zero_never_sync. Qed.
+Theorem C05_dyn_zero_never_stoch : forall W (D : dtable W) pf fuel rs ls ds t pi j e,
+  (forall lc w, dnonneg D lc w) -> Forall unit_rand rs ->
+  In (OTap t pi (NEv pi j) e) (r_out (dstoch_run D pf fuel rs ls ds)) -> fired_dyn_ok D pi j e.
+Proof. exact CVI_zero_never_stoch. Qed.
+Theorem C05_dyn_conservative_stoch : forall W (tb : table W) pf fuel rs ls ds,
+  dstoch_run (static_dtable tb) pf fuel rs ls ds = stoch_run tb pf fuel rs ls ds.
+Proof. exact CVI_conservative_stoch. Qed.
+Theorem C05_dyn_conservative_sync : forall W (tb : table W) pf fuel rs ds,
+  dsync_run (static_dtable tb) pf fuel rs ds = sync_run tb pf fuel rs ds.
+Proof. exact CVI_conservative_sync. Qed.
+
+(* SIR_VariableInfection (also with posted removals of its seeds): infect is only ever called on an edge that is
+   in the SI locus at that instant; the appended entries are exactly the SI locus in ascending order, each with
+   its edge's infectivity, each testing membership of its own edge *)
+Theorem C05_vi_member_stoch : forall vm nodes edges init inf maxtime monitor pf fuel rs ls ds k t c e m,
+  In (OHandler k t c e (Some m)) (r_out (dstoch_run (mk_vitable vm nodes edges init inf maxtime monitor) pf fuel rs ls ds)) -> m = true.
+Proof. exact CVI_vi_member_stoch. Qed.
+Theorem C05_vi_member_sync : forall vm nodes edges init inf maxtime monitor pf fuel rs ds k t c e m,
+  In (OHandler k t c e (Some m)) (r_out (dsync_run (mk_vitable vm nodes edges init inf maxtime monitor) pf fuel rs ds)) -> m = true.
+Proof. exact CVI_vi_member_sync. Qed.
+Theorem C05_vi_distribution : forall vm nodes edges init inf maxtime monitor lc w,
+  let D := mk_vitable vm nodes edges init inf maxtime monitor in
+  dper_element D lc w = map TStat (per_element (d_tb D))
+    ++ map (fun e => TDyn (vi_mpi monitor) (vi_entry vm w e)) (nth (vim_si vm) lc []).
+Proof. exact CVI_vi_distribution. Qed.
+Theorem C05_vi_entry : forall vm w n m, let d := vi_entry vm w (EE n m) in
+  de_value d = EE n m /\ de_prog d = vi_infect_prog vm
+  /\ de_p d = match infectivity (vi_inf w) n m with Some p => p | None => 0 end
+  /\ forall lc w', de_member d lc w' = mem (EE n m) (nth (vim_si vm) lc []).
+Proof. exact CVI_vi_entry. Qed.
+
+(* the F15 situation with the posted-removal subclass: path 0 - 1, node 0 infected and removed by an event posted
+   for 1/2, infectivity 1, pRemove = 0.  Gillespie selects infect on (1,0) for time 1; the posted removal runs
+   first; the entry is stale and is skipped: node 1 stays susceptible *)
+Example C05_dyn_example_posted_removal :
+  let D := mk_vitable (sir_vi_gen 0 (Some (1#2))) [0; 1]%Z [(0, 1)]%Z [(0, 1); (1, 3)]%Z
+                      (initial_infectivities [(0, 1)]%Z [1]) 3 None in
+  let r := dstoch_run D 50 50 [1#2; 1#2; 1#2] [1; 1] [] in
+  r_out r = [OPosted 0 (1 # 2); OHandler 0 (1 # 2) (1 # 2) (EN 0) None; OTap (1 # 2) 0 (NPost 0) (EN 0)]
+  /\ r_time r = 1 /\ r_events r = 1%nat /\ r_stuck r = false
+  /\ map (getc (cw_st (vi_base (world (r_final r))))) [0; 1]%Z = [Some 2; Some 3]%Z.
+Proof. exact CVI_example_posted_removal. Qed.
+
+(* synchronous, the F8 situation on a triangle 0-1-2 with 0 and 1 infected, all infectivities 1: both (2,0) and
+   (2,1) are selected; infect on (2,0) empties the SI locus; (2,1) fails its test and is skipped, uncounted *)
+Example C05_dyn_example_sync_skip :
+  let D := mk_vitable (sir_vi 0) [0; 1; 2]%Z [(0, 1); (0, 2); (1, 2)]%Z [(0, 1); (1, 1); (2, 3)]%Z
+                      (initial_infectivities [(0, 1); (0, 2); (1, 2)]%Z [1; 1; 1]) 2 None in
+  let r := dsync_run D 50 50 [1#2; 1#2] [] in
+  r_out r = [OHandler 1 1 1 (EE 2 0) (Some true); OTap 1 0 (NEv 0 1) (EE 2 0)]
+  /\ r_events r = 1%nat /\ r_steps r = 1%nat /\ r_stuck r = false
+  /\ cw_occ (vi_base (world (r_final r))) = [((2, 0)%Z, 1)].
+Proof. exact CVI_example_sync_skip. Qed.
